@@ -4,6 +4,10 @@ import (
 	"testing"
 
 	"github.com/stretchr/testify/assert"
+	"github.com/stretchr/testify/require"
+
+	"github.com/ccbrown/api-fu/graphql/ast"
+	"github.com/ccbrown/api-fu/graphql/schema"
 )
 
 func TestVariables_AllUsed(t *testing.T) {
@@ -42,4 +46,56 @@ func TestVariables_UsagesAllowed(t *testing.T) {
 
 func TestVariables_InList(t *testing.T) {
 	assert.Empty(t, validateSource(t, `query Foo($n: Int!) {nonNullIntListArgField(intListArg: [$n])}`))
+}
+
+func TestVariables_InCustomScalarLiteral(t *testing.T) {
+	jsonType := &schema.ScalarType{
+		Name: "JSON",
+		LiteralCoercion: func(v ast.Value) interface{} {
+			switch v.(type) {
+			case *ast.ListValue, *ast.ObjectValue:
+				return v
+			}
+			return nil
+		},
+		VariableValueCoercion: func(v interface{}) interface{} { return v },
+		ResultCoercion:        func(v interface{}) interface{} { return v },
+	}
+	inputType := &schema.InputObjectType{
+		Name: "In",
+		Fields: map[string]*schema.InputValueDefinition{
+			"j":  {Type: jsonType},
+			"js": {Type: schema.NewListType(jsonType)},
+		},
+	}
+	s, err := schema.New(&schema.SchemaDefinition{
+		Query: &schema.ObjectType{
+			Name: "Query",
+			Fields: map[string]*schema.FieldDefinition{
+				"f": {
+					Type: schema.IntType,
+					Arguments: map[string]*schema.InputValueDefinition{
+						"a":  {Type: jsonType},
+						"in": {Type: inputType},
+						"i":  {Type: schema.IntType},
+					},
+				},
+			},
+		},
+	})
+	require.NoError(t, err)
+
+	// a variable inside a literal for a custom scalar has no location type to be checked against
+	assert.Empty(t, validateSourceWithSchema(t, s, `query ($v: Int) {f(a: [$v])}`))
+	assert.Empty(t, validateSourceWithSchema(t, s, `query ($v: Int) {f(a: {k: $v})}`))
+	assert.Empty(t, validateSourceWithSchema(t, s, `query ($v: Int) {f(a: {k: [1, {l: [[$v]]}]})}`))
+	assert.Empty(t, validateSourceWithSchema(t, s, `query ($v: Int) {f(in: {j: [$v], js: [{k: $v}, [$v]]})}`))
+	assert.Empty(t, validateSourceWithSchema(t, s, `query ($v: Int) {f(in: {js: {k: $v}})}`))
+	// it still counts as a use, and must still be defined
+	assert.Len(t, validateSourceWithSchema(t, s, `query ($v: Int) {f(a: [1])}`), 1)
+	assert.Len(t, validateSourceWithSchema(t, s, `{f(a: [$v])}`), 1)
+	// elsewhere nothing changes
+	assert.Len(t, validateSourceWithSchema(t, s, `query ($v: String) {f(i: $v)}`), 1)
+	assert.Len(t, validateSourceWithSchema(t, s, `query ($v: Int) {f(i: [$v])}`), 1)
+	assert.Len(t, validateSourceWithSchema(t, s, `query ($v: String) {f(in: {js: [$v]})}`), 1)
 }
